@@ -438,7 +438,9 @@ def build(cfg):
             description['convergence_controllers'] = {BasicRestartingNonMPI: ccs.pop(BasicRestartingNonMPI), **ccs}
     if cfg.get('restart_script'):
         level_params['restol'] = -1.0
-        description['convergence_controllers'][resolve('ScriptedRestart')] = {}
+        # restart_late: the detector sits behind BasicRestarting in the control order (as the shipped AdaptivityCollocation, 220):
+        # its flag is not passed on to the later steps of the block in the same check
+        description['convergence_controllers'][resolve('ScriptedRestart')] = {'control_order': 220} if cfg.get('restart_late') else {}
     for cc, pars in cfg.get('cc', []):
         description['convergence_controllers'][resolve(cc)] = dict(pars)
     controller_params = {
